@@ -1766,6 +1766,8 @@ namespace bloch::runtime {
             }
         }
         Value ret = m_returnValue;
+        if (method->decl)
+            widenFor(method->decl->returnType.get(), ret);
         // Do not keep the returned value alive in the return slot: a stale reference there delays
         // the destructor of an object whose last variable has already been destroyed.
         m_returnValue = {};
@@ -1798,6 +1800,7 @@ namespace bloch::runtime {
             }
         }
         Value ret = m_returnValue;
+        widenFor(fn->returnType.get(), ret);
         // Do not keep the returned value alive in the return slot: a stale reference there delays
         // the destructor of an object whose last variable has already been destroyed.
         m_returnValue = {};
